@@ -15,7 +15,7 @@
 //! request kinds: 0 bare acquire; 1/2 AsyncCommand::spawn + Child::wait, exit 0 / 3;
 //!   3 / 9 / 10 / 11 / 12 unstartable: no such file, not executable, a directory, bad interpreter, busy (ETXTBSY);
 //!   4..8 util::run_input_output: 4/5 exits 0 / 1 while a grandchild keeps its stdout+stderr, 6 writes 300 kB to
-//!   both pipes, 7 is fed 300 kB it never reads, 8 kills itself.
+//!   both pipes (stdout first; 13: stderr first), 7 is fed 300 kB it never reads, 8 kills itself.
 use sccache::verif_hooks::jobserver::{verif_trace, Acquired, Client};
 use sccache::verif_hooks::mock_command::{AsyncCommand, CommandChild, RunCommand};
 use sccache::util::run_input_output;
@@ -148,7 +148,7 @@ fn hook(ev: &'static str) {
         "receive" => {
             t.evs.push(Ev::Receive(r));
             t.phase.insert(r, Phase::Held);
-            if (4..=8).contains(&t.kind.get(&r).copied().unwrap_or(0)) {
+            if via_run_input_output(t.kind.get(&r).copied().unwrap_or(0)) {
                 // run_input_output: acquire and spawn of /bin/sh happen in the same poll, nothing of ours in between
                 t.evs.push(Ev::Start(r));
                 t.phase.insert(r, Phase::Running);
@@ -275,6 +275,10 @@ fn kill_all_grandchildren() {
     }
 }
 
+fn via_run_input_output(kind: u64) -> bool {
+    (4..=8).contains(&kind) || kind == 13
+}
+
 fn spawn_fails(kind: u64) -> bool {
     kind == 3 || (9..=12).contains(&kind)
 }
@@ -354,6 +358,20 @@ async fn watch_spawn(r: u64) {
     }
 }
 
+static HANGS: std::sync::atomic::AtomicU64 = std::sync::atomic::AtomicU64::new(0);
+
+/// How long a started compiler process (its script sleeps a few ms and writes at most 600 kB) may take to end.
+/// A process that has not ended by then is HUNG - e.g. blocked writing to a pipe nobody drains - and so is its
+/// request, token included.  Once seen in this harness process, later cases do not wait that long again.
+fn hang_bound() -> Duration {
+    Duration::from_millis(if HANGS.load(Ordering::SeqCst) > 0 { 500 } else { 4000 })
+}
+
+fn hung() {
+    HANGS.fetch_add(1, Ordering::SeqCst);
+    with(|g| g.evs.push(Ev::Other("hung_process_never_exited_request_keeps_its_token")));
+}
+
 static LATE_RELEASES: std::sync::atomic::AtomicU64 = std::sync::atomic::AtomicU64::new(0);
 
 /// How long after the compiler PROCESS has ended (its marker exists) the token may take to be back.  The real
@@ -377,6 +395,10 @@ fn process_script(r: u64, kind: u64, dur_ms: u64) -> String {
             "{pre}; head -c 300000 /dev/zero | tr '\\0' x; head -c 300000 /dev/zero | tr '\\0' y >&2; echo 0 > {m}; exit 0"
         ),
         7 => format!("{pre}; echo 0 > {m}; exit 0"),
+        // as 6, the other way round: diagnostics first, then the output
+        13 => format!(
+            "{pre}; head -c 300000 /dev/zero | tr '\\0' y >&2; head -c 300000 /dev/zero | tr '\\0' x; echo 0 > {m}; exit 0"
+        ),
         _ => format!("{pre}; echo 1 > {m}; kill -9 $$"),
     }
 }
@@ -392,7 +414,7 @@ fn settle(k: i64) -> bool {
             return true;
         }
         // the helper needs microseconds; once it failed to come to rest in this process, do not wait long again
-        let limit = if SETTLE_TIMEOUTS.load(Ordering::SeqCst) > 0 { 200 } else { 8000 };
+        let limit = if SETTLE_TIMEOUTS.load(Ordering::SeqCst) > 0 { 200 } else { 5000 };
         if t0.elapsed() > Duration::from_millis(limit) {
             SETTLE_TIMEOUTS.fetch_add(1, Ordering::SeqCst);
             with(|t| t.evs.push(Ev::Other("settle_timeout")));
@@ -426,7 +448,7 @@ fn work(client: Client, r: u64, kind: u64, dur_ms: u64, hold: bool, watch: bool)
                 }
                 Err(_) => Outcome::AcquireErr,
             }
-        } else if kind <= 3 || kind >= 9 {
+        } else if kind <= 3 || (9..=12).contains(&kind) {
             let prog = unstartable(r, kind).unwrap_or_else(|| "/bin/sh".to_string());
             if watch && spawn_fails(kind) {
                 tokio::spawn(watch_spawn(r));
@@ -675,14 +697,23 @@ fn det(case: &Sx) -> Sx {
                                 with(|g| g.evs.push(Ev::Other("token_not_back_after_process_exit")));
                                 break;
                             }
-                            if t0.elapsed() > Duration::from_secs(30) {
+                            if exited_at.is_none() && t0.elapsed() > hang_bound() {
+                                hung();
+                                break;
+                            }
+                            if t0.elapsed() > Duration::from_secs(15) {
                                 with(|g| g.evs.push(Ev::Other("wait_timeout")));
                                 break;
                             }
                             tokio::time::sleep(Duration::from_millis(1)).await;
                         }
                         let kind = with(|g| g.kind.get(&r).copied().unwrap_or(0));
+                        let is_hung = !ready && phase_of(r) == Some(Phase::Running) && exited_at.is_none();
                         if ready {
+                            drop(t);
+                        } else if is_hung {
+                            // dropping the request closes the pipes' read ends: the blocked process gets EPIPE and ends
+                            with(|g| g.dropping.insert(r, true));
                             drop(t);
                         } else if (kind == 4 || kind == 5) && phase_of(r) == Some(Phase::Draining) {
                             slots.insert(r, Slot::Draining(t));
@@ -694,7 +725,7 @@ fn det(case: &Sx) -> Sx {
                                 if let Poll::Ready(_) = futures::poll!(&mut t) {
                                     break;
                                 }
-                                if t1.elapsed() > Duration::from_secs(10) {
+                                if t1.elapsed() > Duration::from_secs(4) {
                                     with(|g| g.evs.push(Ev::Other("finish_timeout")));
                                     break;
                                 }
@@ -718,7 +749,7 @@ fn det(case: &Sx) -> Sx {
                             if let Poll::Ready(_) = futures::poll!(&mut t) {
                                 break;
                             }
-                            if t1.elapsed() > Duration::from_secs(10) {
+                            if t1.elapsed() > Duration::from_secs(4) {
                                 with(|g| g.evs.push(Ev::Other("finish_timeout")));
                                 break;
                             }
@@ -866,6 +897,12 @@ fn mt(case: &Sx) -> Sx {
         }
         if stuck {
             STUCK_CASES.fetch_add(1, Ordering::SeqCst);
+            let hung_now: Vec<u64> = with(|g| {
+                g.phase.iter().filter(|(_, p)| **p == Phase::Running).map(|(r, _)| *r).collect()
+            });
+            if hung_now.iter().any(|r| !std::path::Path::new(&marker(*r)).exists()) {
+                hung();
+            }
             let avail = client.verif_available().map(|n| n as u64).unwrap_or(9999);
             drop(client);
             return (avail, 0, false, false, avail, true);
